@@ -54,6 +54,14 @@ CLAIMED = {
    note="FICLONERANGE is emulated in-process (generic VFS remap rules); SHA512/256 is a leaf; block devices out of scope.",
    technique="TLA+ spec + TLC model checking; trace validation with per-step state read-back under randomised/PCT schedules",
    design="4/C01"),
+ "C09": dict(
+   text="ReadSeeker.tla states the property as an oracle over observable results (SeekOK/ReadOK) and models IndexPos and the mount "
+        "handle structurally; TLC checks that every result of the model satisfies the oracle for all small indexes, op sequences and "
+        "failing-ID sets. Random op sequences on the real IndexPos and the real mount file handle (also concurrent requests on one "
+        "handle over a gated store) are recorded and every result is judged by the same oracle (Trace_ReadSeeker.tla).",
+   note="No kernel FUSE mount is possible in the sandbox: the node's handle read function is called directly. Well-formed indexes assumed.",
+   technique="TLA+ spec (property oracle + implementation-shaped model) checked by TLC; trace validation of recorded calls",
+   design="4/C09"),
 }
 
 NOT_YET = "check not built yet in this round (planned in DESIGN.md section 4)"
